@@ -76,6 +76,35 @@ func readerString(v value) (string, bool) {
 		}
 	case name == "net/http.noBody":
 		return "", true
+	case name == "*io.LimitedReader":
+		// io.LimitReader(r, n): at most n bytes of r (n <= 0: nothing)
+		st := (*it.v.(*value)).(structure)
+		n, ok := st[1].(int64)
+		if !ok {
+			return "", false
+		}
+		s, ok := readerString(st[0])
+		if !ok {
+			return "", false
+		}
+		if n <= 0 {
+			return "", true
+		}
+		if int64(len(s)) > n {
+			s = s[:n]
+		}
+		st[1] = n - int64(len(s))
+		return s, true
+	}
+	// a struct value that embeds an io.Reader (struct{ io.Reader; io.Closer }{...})
+	if stt, ok := it.t.Underlying().(*types.Struct); ok {
+		if sv, ok := it.v.(structure); ok {
+			for i := 0; i < stt.NumFields() && i < len(sv); i++ {
+				if stt.Field(i).Embedded() && stt.Field(i).Name() == "Reader" {
+					return readerString(sv[i])
+				}
+			}
+		}
 	}
 	return "", false
 }
